@@ -232,3 +232,29 @@ def build_graft_style(mt: MTree, data, grid, sib):
         t.add_data_point_to_outliers(data[o])
     t.update()
     return t
+
+
+@st.composite
+def st_with_empty_clones(draw, mt_json, max_insert=2):
+    """insert empty clones above >= 2 siblings (what a consensus tree contains when a clade is the union of sub-clades)"""
+    mt = MTree.from_json(mt_json)
+    blocks = [list(b) for b in mt.blocks]
+    parent = list(mt.parent)
+    for _ in range(draw(st.integers(0, max_insert))):
+        k = len(blocks)
+        groups = [(p, [c for c in range(k) if parent[c] == p]) for p in range(-1, k)]
+        groups = [(p, ch) for p, ch in groups if len(ch) >= 2]
+        if not groups:
+            break
+        p, ch = groups[draw(st.integers(0, len(groups) - 1))]
+        flags = draw(st.lists(st.booleans(), min_size=len(ch), max_size=len(ch)))
+        sel = [c for c, f in zip(ch, flags) if f]
+        if len(sel) < 2:
+            sel = ch[:2]
+        if len(sel) == len(ch) and p != -1 and len(blocks[p]) == 0:
+            continue  # would duplicate the clade of an empty parent
+        blocks.append([])
+        parent.append(p)
+        for c in sel:
+            parent[c] = k
+    return MTree(blocks, parent, mt.outliers).to_json()
